@@ -394,3 +394,66 @@ def standard_run(spec, tier, seed, fold, tag="main", profile="release", variant=
                         events=spec.get("events", False), tag=tag, **(run_kw or {}))
     fold.add_shards(shards, tag if tag != "main" else "")
     return shards
+
+
+# ---------------------------------------------------------------------------------------------
+# Miri tier: the same harness crate family, interpreted. Each process is single-threaded, so the
+# work is sharded over processes. A Miri diagnostic ("Undefined Behavior") is a violation of the
+# property the section belongs to; "unsupported operation" (FFI etc.) is inconclusive.
+
+def miri_run(prop_id, section, seed, fold, procs=12, ops=100, timeout_s=1500):
+    import re
+    ensure_lockfile()
+    env = base_env()
+    env["CARGO_TARGET_DIR"] = os.path.join(TARGET_BASE, "target-miri")
+    env["MIRIFLAGS"] = "-Zmiri-disable-isolation"
+    env["RUST_BACKTRACE"] = "0"
+    base = ["cargo", "+nightly", "miri", "run", "--offline", "-q", "-p", "vh-miri", "--bin", "miri_all", "--"]
+    outdir = os.path.join(RUNS, prop_id, "miri-" + section)
+    shutil.rmtree(outdir, ignore_errors=True)
+    os.makedirs(outdir, exist_ok=True)
+    t0 = time.time()
+    b = subprocess.run(base + ["--section", "none", "--out", os.path.join(outdir, "build.json")], cwd=HARNESS, env=env,
+                       stdout=subprocess.PIPE, stderr=subprocess.STDOUT, text=True)
+    if b.returncode != 0:
+        raise BuildError("miri build failed:\n" + "\n".join(b.stdout.splitlines()[-40:]))
+    log("[miri] build ok in %.1fs" % (time.time() - t0))
+
+    def one(i):
+        out = os.path.join(outdir, "p%d.json" % i)
+        lg = os.path.join(outdir, "p%d.log" % i)
+        cmd = base + ["--section", section, "--ops", str(ops), "--seed", str(seed), "--shard", str(i), "--nshards", str(procs),
+                      "--tier", "thorough", "--out", out]
+        with open(lg, "w") as lf:
+            try:
+                p = subprocess.run(cmd, cwd=HARNESS, env=env, stdout=lf, stderr=subprocess.STDOUT, timeout=timeout_s)
+                rc = p.returncode
+            except subprocess.TimeoutExpired:
+                rc = -999
+        return i, rc, out, lg
+
+    with cf.ThreadPoolExecutor(max_workers=min(procs, NCPU)) as ex:
+        results = list(ex.map(one, range(procs)))
+    for i, rc, out, lg in results:
+        text = open(lg, errors="replace").read()
+        if rc == -999:
+            fold.inconc("miri-watchdog:" + section)
+            continue
+        if "Undefined Behavior" in text or "error: memory leaked" in text or "data race" in text.lower():
+            m = re.search(r"error: (Undefined Behavior|memory leaked|Data race)[^\n]*", text)
+            loc = re.search(r"--> ([^\n:]+):\d+", text)
+            where = loc.group(1) if loc else "?"
+            where = where.split("/src/")[-1] if "/src/" in where else where
+            kind = m.group(1) if m else "diagnostic"
+            fold.violation("%s:miri:%s:%s:%s" % (prop_id, section, kind.lower().replace(" ", "-"), where),
+                           [{"detail": "\n".join(text.splitlines()[-40:])[:3000], "replay": {"section": section, "seed": seed, "shard": i, "ops": ops}}])
+            continue
+        if "unsupported operation" in text:
+            fold.inconc("miri-unsupported-operation:" + section)
+            continue
+        if rc != 0 or not os.path.exists(out):
+            fold.broken.append("miri process %d (%s) exited rc=%s: %s" % (i, section, rc, text[-600:]))
+            continue
+        fold.add_result(json.load(open(out)))
+        fold.count("miri_processes_clean_%s" % section, 1)
+    fold.count("miri_sections_run", 1)
